@@ -4,7 +4,10 @@ from contracts import records, registry_model, responder_model
 PROP = 'C03'
 ASSUMPTIONS = ['a registered ServiceInfo has a server name (set_server_if_missing ran: the API does this before registration)',
                'a registered ServiceInfo is not mutated behind the registry (key/type/server_key change only through '
-               'update_service); memo validity of address lists modelled by flags']
+               'update_service); memo validity of address lists modelled by flags',
+               'ServiceInfo._dns_addresses / _dns_nsec / _get_address_and_nsec_records (list comprehensions over ipaddress objects) enter by '
+               'assumed contracts: one address record per address of the host (server key, A or AAAA, host TTL, cache-flush), has_addr_type(s, t) '
+               'names whether that list has a record of type t']
 
 
 def build(R):
@@ -13,6 +16,9 @@ def build(R):
     registry_model.install_getters(R)
     responder_model.install_strategies(R)
     responder_model.install_rrset(R)
+    from contracts import c09
+    c09.install_builders(R, PROP)          # the service's own record builders (memo soundness, TTLs, cache-flush class)
+    responder_model.install_answers(R)
 
 
 def configure(ctx, R):
@@ -20,6 +26,7 @@ def configure(ctx, R):
     registry_model.install_generators(R)
     responder_model.install_generators(R)
     responder_model.install_rrset_generators(R)
+    responder_model.install_answer_generators(R)
 
 
 NO_CONCRETE = set()
